@@ -83,7 +83,7 @@ impl LenSel {
             LenSel::Minus(d) => b.saturating_sub(d),
             LenSel::Abs(l) => l,
         };
-        l.min(10_000) // shards are real byte vectors
+        l.min(b.max(10_000) + 4) // shards are real byte vectors
     }
 }
 
@@ -410,7 +410,8 @@ fn small_count() -> BoxedStrategy<usize> {
 pub fn oneshot_strategy(_t: Tier) -> BoxedStrategy<OneShot> {
     let enc = (small_count(), small_count(), size_pool(), 0u8..4, any::<u8>(), prop::collection::vec(len_sel(), 0..4)).prop_map(
         |(k, r, b, nsel, nraw, extra)| {
-            let b = tame(Kind::Rs, k, r, b).min(4096);
+            // rarely: shards of 1..3 MiB (size-dependent paths of the one-shot functions), few of them
+            let b = if nraw % 32 == 7 && k <= 4 && r <= 4 { (1 << 20) + (nraw as usize * 7919 % (1 << 21)) / 2 * 2 } else { tame(Kind::Rs, k, r, b).min(4096) };
             // number of shards: exactly k (mostly), k-1, k+1, 0, random
             let kk = k.min(40);
             let n = match nsel {
@@ -438,7 +439,7 @@ pub fn oneshot_strategy(_t: Tier) -> BoxedStrategy<OneShot> {
         prop::collection::vec(fault, 0..=2),
     )
         .prop_map(|(k, r, b, (shape, raw_o, raw_s), faults)| {
-            let b = tame(Kind::Rs, k, r, b).min(4096);
+            let b = if raw_s % 32 == 7 && k <= 4 && r <= 4 { (1 << 20) + (raw_s as usize * 7919 % (1 << 21)) / 2 * 2 } else { tame(Kind::Rs, k, r, b).min(4096) };
             let kk = k.min(40);
             let rr = r.min(40);
             // how many originals are given in the base input
